@@ -628,6 +628,72 @@ fn compile_mode(case: &Case, dir: &std::path::Path, res: &mut CaseResult, json_m
     if json_mode {
         parse_json_stdout(&out.stdout, res, &at)?;
     }
+    // the same source through the statistics mode (-s: parse and count, nothing written): the same duties
+    // for the exit code and the compiler's message
+    {
+        let mut sargs: Vec<String> = Vec::new();
+        if json_mode {
+            sargs.push("-j".into());
+        }
+        sargs.push("-s".into());
+        sargs.push("main.ink".into());
+        let sat = format!("rinklecate {} (fault {fault})", sargs.join(" "));
+        let d2 = dir.to_path_buf();
+        let slib = std::panic::catch_unwind(|| {
+            bladeink_compiler::Compiler::with_options(bladeink_compiler::CompilerOptions { count_all_visits: true, source_filename: Some("main.ink".into()) })
+                .compile_to_stats_with_file_handler(&source, move |inc| std::fs::read_to_string(d2.join(inc)).map_err(|e| bladeink_compiler::CompilerError::invalid_source(format!("Failed to read included file '{}': {}", inc, e))))
+        });
+        match slib {
+            Err(_) => {
+                let _ = crate::host::take_panic();
+            }
+            Ok(slib) => {
+                let sout = run_child(&sargs, b"", 1, dir)?;
+                if sout.timed_out {
+                    res.fail(Violation::new("C20", "cli:hang", "stats", "the tool did not finish").with(sat, "exit".into(), "killed".into()));
+                    return None;
+                }
+                if json_mode {
+                    parse_json_stdout(&sout.stdout, res, &sat)?;
+                }
+                let sstdout = String::from_utf8_lossy(&sout.stdout).to_string();
+                let sstderr = String::from_utf8_lossy(&sout.stderr).to_string();
+                match slib {
+                    Ok(_) => {
+                        res.stats.inc("cli.stats.ok_compared");
+                        if sout.code != Some(0) {
+                            res.fail(Violation::new("C20", "cli:exit-code", "stats", "the library counts the source but the tool exited non-zero").with(sat, "0".into(), format!("{:?} {}", sout.code, sstderr.chars().take(300).collect::<String>())));
+                            return None;
+                        }
+                    }
+                    Err(e) => {
+                        res.stats.inc("cli.stats.error_reported");
+                        let msg = e.to_string();
+                        if sout.code == Some(0) {
+                            res.fail(Violation::new("C20", "cli:exit-code", "stats", "a compile error in statistics mode but the tool exited 0").with(sat.clone(), "non-zero".into(), "0".into()));
+                        }
+                        let hay = if json_mode {
+                            let mut all = String::new();
+                            for v in serde_json::Deserializer::from_str(&sstdout).into_iter::<J>().flatten() {
+                                if let Some(a) = v.get("issues").and_then(|i| i.as_array()) {
+                                    for s in a {
+                                        all.push_str(s.as_str().unwrap_or(""));
+                                        all.push('\n');
+                                    }
+                                }
+                            }
+                            all
+                        } else {
+                            sstderr.clone()
+                        };
+                        if !hay.contains(&msg) {
+                            res.fail(Violation::new("C20", "cli:message", "stats", "the compiler's message is not reported in statistics mode").with(sat, msg, hay.chars().take(400).collect()));
+                        }
+                    }
+                }
+            }
+        }
+    }
     match lib {
         Ok(expected) => {
             if fault == 4 {
